@@ -36,28 +36,53 @@ pub fn strp(s: &str) -> Result<f32> {
 
 /// Parse a string such as "32.5mm" into a value (32.5) and unit ("mm")
 pub fn split_unit(s: &str) -> Result<(f32, String)> {
-    let mut value = String::new();
-    let mut unit = String::new();
-    let mut got_value = false;
-    for ch in s.trim().chars() {
-        if ch.is_ascii_digit() || ch == '.' || ch == '-' {
-            if got_value {
-                return Err(SvgdxError::ParseError(format!(
-                    "Invalid character in numeric value: '{ch}'"
-                )));
-            }
-            value.push(ch);
-        } else {
-            if value.is_empty() {
-                return Err(SvgdxError::ParseError(format!(
-                    "'{s}' does not start with numeric value"
-                )));
-            }
-            got_value = true;
-            unit.push(ch);
+    // The value is the longest prefix that is a number as SVG writes them: an optional
+    // sign, digits with an optional fraction, an optional exponent ("1e2", but "1em" is
+    // 1 with the unit em); the unit is the rest.
+    let t = s.trim();
+    let bytes = t.as_bytes();
+    let digits = |mut i: usize| {
+        while i < bytes.len() && bytes[i].is_ascii_digit() {
+            i += 1;
+        }
+        i
+    };
+    let mut end = 0;
+    if end < bytes.len() && (bytes[end] == b'-' || bytes[end] == b'+') {
+        end += 1;
+    }
+    let int_end = digits(end);
+    let mut frac_end = int_end;
+    if frac_end < bytes.len() && bytes[frac_end] == b'.' {
+        frac_end = digits(frac_end + 1);
+    }
+    if frac_end == end || (frac_end == int_end + 1 && int_end == end) {
+        // no digits at all (or a lone '.')
+        return Err(SvgdxError::ParseError(format!(
+            "'{s}' does not start with numeric value"
+        )));
+    }
+    end = frac_end;
+    if end < bytes.len() && (bytes[end] == b'e' || bytes[end] == b'E') {
+        let mut exp = end + 1;
+        if exp < bytes.len() && (bytes[exp] == b'-' || bytes[exp] == b'+') {
+            exp += 1;
+        }
+        let exp_end = digits(exp);
+        if exp_end > exp {
+            end = exp_end;
         }
     }
-    Ok((strp(&value)?, unit))
+    let (value, unit) = t.split_at(end);
+    if let Some(ch) = unit
+        .chars()
+        .find(|ch| ch.is_ascii_digit() || *ch == '.' || *ch == '-')
+    {
+        return Err(SvgdxError::ParseError(format!(
+            "Invalid character in numeric value: '{ch}'"
+        )));
+    }
+    Ok((strp(value.trim_start_matches('+'))?, unit.to_string()))
 }
 
 /// Returns iterator over whitespace-or-comma separated values
